@@ -300,6 +300,8 @@ deriving Repr, Inhabited
 structure Sys where
   k       : K := {}
   tlocks  : List (Nat × Tid) := []
+  /-- holder of the CREATE TABLE lock (`SecondaryStorage::ddl_lock`) -/
+  ddlLock : Option Tid := none
   catalog : List (Nat × Nat) := []      -- (name, table id)
   tables  : List Nat := []
   nextTid : Nat := 0
@@ -399,7 +401,10 @@ def unlockAll (s : Sys) (th : Tid) : Sys :=
   { s with tlocks := s.tlocks.filter (fun p => !(p.2 == th)) }
 
 def unlockActor (s : Sys) (a : Nat) : Sys :=
-  { s with tlocks := s.tlocks.filter (fun p => !(p.2.1 == a)) }
+  { s with tlocks := s.tlocks.filter (fun p => !(p.2.1 == a)),
+           ddlLock := match s.ddlLock with
+             | some h => if h.1 == a then none else some h
+             | none => none }
 
 /-- The compactor moved on from table `cpCur`: what happened there must be what the model
 expects (lock busy ⇒ skipped; plan ⇒ committed). -/
@@ -586,7 +591,9 @@ def stepCommitBegin (s : Sys) (th : Tid) : Option Sys :=
                     { t with begun := true, ops := dvOps s.k.nextDv hs keys })
             | none => none)
        | some (.create n), .none =>
-           if p.isBound then some (setTh s th { t with begun := true, ops := [.create n] }) else none
+           -- under the DDL lock: the name is checked again before anything is logged
+           if !p.isBound || s.ddlLock.isSome || (lookupName s n).isSome then none
+           else some (setTh { s with ddlLock := some th } th { t with begun := true, ops := [.create n] })
        | some (.drop _), .none =>
            -- DROP TABLE took the table's deletion lock before it pinned
            (match p.btab with
